@@ -36,9 +36,21 @@ def module_text(rng, name, universe, long_ids=False):
     priv = 'private ' if rng.chance(1, 15) else ''
     v = (LONG + name) if long_ids else 'v'
     body = []
+    # documentation comments on declarations that other modules refer to (hover on a use elsewhere shows them); how many
+    # a module has varies, so that comment indices of one module are out of range for another
+    dr = rng.fork()
+
+    def doc(what):
+        if dr.chance(1, 2):
+            body.append('  /** documentation of %s in %s */' % (what, name))
+    doc('make')
     body.append('  function make(): %s = %s.init(%s)' % (c, c, LIT[t] if not rng.chance(1, 10) else LIT[rng.pick(TYPES)]))
+    doc('get')
     body.append('  method get(): %s = this.%s' % (t, v))
+    doc('f')
     body.append('  function f(): %s = %s' % (t, LIT[t] if not rng.chance(1, 8) else LIT[rng.pick(TYPES)]))
+    class_doc = '/** documentation of class %s */\n' % c if dr.chance(1, 2) else ''
+    field_doc = '/** documentation of the field */ ' if dr.chance(1, 2) else ''
     for m in imps:
         cm = cls(m)
         u = rng.below(100)
@@ -70,7 +82,7 @@ def module_text(rng, name, universe, long_ids=False):
                        'class EnumWithAVeryLongName%s(VariantWithAVeryLongNameOne%s(int), VariantWithAVeryLongNameTwo%s) {\n'
                        '  method matchOn%s(): int = match this { VariantWithAVeryLongNameOne%s(patternBinderWithAVeryLongName%s) -> patternBinderWithAVeryLongName%s, VariantWithAVeryLongNameTwo%s -> 0 }\n}\n'
                        % (u, u, u, u, u, u, u, u, u, u))
-    text = '\n'.join(lines) + '\n\n%sclass %s(val %s: %s) {\n%s\n}\n' % (priv, c, v, t, '\n'.join(body)) + extra_decls
+    text = '\n'.join(lines) + '\n\n%s%sclass %s(%sval %s: %s) {\n%s\n}\n' % (class_doc, priv, c, field_doc, v, t, '\n'.join(body)) + extra_decls
     if rng.chance(1, 10):
         # a recoverable syntax error somewhere inside
         text = text.replace('): int =', ') int =', 1) if '): int =' in text else text + '\nclass'
